@@ -44,7 +44,7 @@ SWITCHES = [
     ("propagate_SystemExit_locally", "cfgPropagateSysExit"),
 ]
 HOOKS = ("_rpyc_getattr", "_rpyc_setattr", "_rpyc_delattr")
-ANCHORS = ["_unbox", "_netref_factory", "_dispatch_request", "_dispatch", "_check_attr", "_access_attr",
+ANCHORS = ["_unbox", "_resolve_local_refs", "_netref_factory", "_dispatch_request", "_dispatch", "_check_attr", "_access_attr",
            "_seq_request_callback", "_box", "_unbox_exc", "_cleanup"]
 
 
